@@ -30,6 +30,7 @@
 #include <ftp/detail/binary_ostream.hpp>
 #include <ftp/stream/ostream_adapter.hpp>
 #include <ftp/detail/net_utils.hpp>
+#include <algorithm>
 #include <sstream>
 
 namespace ftp
@@ -948,6 +949,13 @@ bool client::try_parse_pasv_reply(const reply & reply, std::string & ip, uint16_
     }
 
     std::string_view address_string = status_string.substr(begin, end - begin);
+
+    /* Exactly six fields: split_string() does not report a trailing empty field. */
+    if (std::count(address_string.begin(), address_string.end(), ',') != 5)
+    {
+        return false;
+    }
+
     std::vector<std::string> address_tokens = utils::split_string(address_string, ',');
 
     if (address_tokens.size() != 6)
@@ -955,28 +963,26 @@ bool client::try_parse_pasv_reply(const reply & reply, std::string & ip, uint16_
         return false;
     }
 
+    /* Each field is the decimal value of an 8-bit number. */
+    std::uint8_t fields[6];
+    for (std::size_t i = 0; i < 6; i++)
+    {
+        if (!utils::try_parse_uint8(address_tokens[i], fields[i]))
+        {
+            return false;
+        }
+    }
+
     ip.clear();
-    ip.append(address_tokens[0]);
+    ip.append(std::to_string(fields[0]));
     ip.append(".");
-    ip.append(address_tokens[1]);
+    ip.append(std::to_string(fields[1]));
     ip.append(".");
-    ip.append(address_tokens[2]);
+    ip.append(std::to_string(fields[2]));
     ip.append(".");
-    ip.append(address_tokens[3]);
+    ip.append(std::to_string(fields[3]));
 
-    std::uint16_t port_high;
-    if (!utils::try_parse_uint16(address_tokens[4], port_high))
-    {
-        return false;
-    }
-
-    std::uint16_t port_low;
-    if (!utils::try_parse_uint16(address_tokens[5], port_low))
-    {
-        return false;
-    }
-
-    port = port_high * 256 + port_low;
+    port = static_cast<std::uint16_t>(fields[4] * 256 + fields[5]);
     return true;
 }
 
